@@ -227,7 +227,7 @@ def run(ctx):
             if idx % ctx.nshards != ctx.shard or (idx // ctx.nshards) % ctx.pick(6, 1):
                 continue
             check(ctx, synth, text, 'lexical_product')
-        progs = work.Programs(ctx, ctx.pick(400, 9000), opts_fn=opts_fn)
+        progs = work.Programs(ctx, ctx.per_shard(400, 9000), opts_fn=opts_fn)
         kinds = set()
         for text, meta in progs:
             check(ctx, synth, text, meta['origin'])
